@@ -1,10 +1,12 @@
 import Wayfind.Proofs.Reachable
+import Wayfind.Proofs.Registry5
 
 /-! # C02 — no false negatives
 On every router reachable through the API, if some stored route can be laid over the path (`Fits`, for an arbitrary
 constraint environment — in particular constraints that are not prefix-closed), `search` returns a match; `None` only
 when nothing fits.
-Status: **partial** — stored routes ↔ live templates is the registry invariant; see C01. -/
+Status: on live templates for histories whose inserted templates have pairwise different expansions (see C01); on
+stored routes for all histories. -/
 
 theorem C02_complete (env : Env) (r : Router) (h : Reachable r) (path : Bytes)
     (hfit : ∃ rt ∈ Node.routes r.root, ∃ vs, Fits env rt.parts path vs) :
@@ -22,3 +24,8 @@ theorem C02_none_only_if_nothing_fits (env : Env) (r : Router) (h : Reachable r)
   have := C02_complete env r h path hex
   rw [hnone] at this
   cases this
+
+/-- **On live templates**: if an expansion of a live template fits the path, `search` returns a match -/
+theorem C02_live_template_is_routed (env : Env) (r : Router) (L : List LiveT) (h : Live r L) (path : Bytes)
+    (hfit : ∃ lt ∈ L, ∃ e ∈ lt.exps, ∃ vs, Fits env e.2 path vs) : (r.search env path).isSome = true :=
+  search_complete env h path hfit
